@@ -4,6 +4,12 @@
 //!     types: letters m l o c q (upper case = smooth), `-` = empty contour; coordinates are decimal
 //!     integers; elements `M<b>,<b>` `L..` `Q<b>*4` `C<b>*6` `Z`, `<b>` = f64 bit pattern.
 //! `C20 T <xs> <xys> <yxs> <ys> <xo> <yo> <x> <y> => tr t:<b>,<b> k:<b>,<b> tk:<b>*6 rt:<b>*6 kt:<b>*6`
+//! `C20 C <types> => k:<0|1> p:<0|1|->`   `Contour::is_closed` in the `kurbo` build and in the default build
+//!
+//! The property needs the `kurbo` feature of norad to be observed in full, so the generator runs in a harness
+//! built with `--features kurbo`.  Everything of C20 that exists WITHOUT the feature (`ContourPoint::transform`,
+//! `Contour::is_closed`) is additionally observed in the harness built with the crate's default features
+//! (`$HARNESS_PLAIN`, a worker process `harness c20w`), token `p:`; `p:-` when no such binary is available.
 use crate::common::*;
 use crate::rng::Rng;
 use norad::{AffineTransform, Contour, ContourPoint, Glyph, PointType};
@@ -68,6 +74,17 @@ fn build(types: &str, coords: &[(i64, i64)]) -> Contour {
     Contour::new(pts, None)
 }
 
+#[cfg(not(feature = "kurbo"))]
+pub fn observe_path(_types: &str, _coords: &[(i64, i64)]) -> String {
+    "nokurbo".to_string()
+}
+
+#[cfg(not(feature = "kurbo"))]
+pub fn observe_transform(_v: &[f64]) -> String {
+    "nokurbo".to_string()
+}
+
+#[cfg(feature = "kurbo")]
 pub fn observe_path(types: &str, coords: &[(i64, i64)]) -> String {
     let c = build(types, coords);
     match guarded(|| c.to_kurbo()) {
@@ -209,8 +226,150 @@ fn random_contour(rng: &mut Rng) -> String {
     s.chars().map(|c| if c != 'o' && c != 'm' && rng.chance(1, 4) { c.to_ascii_uppercase() } else { c }).collect()
 }
 
+
+// ---------------------------------------------------------------- the default-feature build
+
+fn transform_of(v: &[f64]) -> (f64, f64) {
+    let t = AffineTransform {
+        x_scale: v[0],
+        xy_scale: v[1],
+        yx_scale: v[2],
+        y_scale: v[3],
+        x_offset: v[4],
+        y_offset: v[5],
+    };
+    let mut p = ContourPoint::new(v[6], v[7], PointType::Line, false, None, None);
+    p.transform(t);
+    (p.x, p.y)
+}
+
+fn is_closed_of(types: &str) -> bool {
+    let pts = types
+        .chars()
+        .enumerate()
+        .map(|(i, ch)| ContourPoint::new(i as f64, 0.0, typ_of(ch), false, None, None))
+        .collect();
+    Contour::new(pts, None).is_closed()
+}
+
+/// answer of this build to one request line: `T <8 bit patterns>` -> `<bx>,<by>`; `C <types>` -> `0|1`
+fn answer(line: &str) -> String {
+    let toks: Vec<&str> = line.split(' ').collect();
+    let r = guarded(|| match toks[0] {
+        "T" => {
+            let v: Vec<f64> = toks[1..9].iter().map(|t| f64::from_bits(u64::from_str_radix(t, 16).unwrap())).collect();
+            let (x, y) = transform_of(&v);
+            format!("{},{}", fb(x), fb(y))
+        }
+        "C" => {
+            let types = if toks[1] == "-" { "" } else { toks[1] };
+            (is_closed_of(types) as u8).to_string()
+        }
+        _ => "?".to_string(),
+    });
+    r.unwrap_or_else(|_| "panic".to_string())
+}
+
+/// `harness c20w`: the worker loop (one answer line per request line, flushed)
+pub fn plain_worker() {
+    use std::io::BufRead;
+    let stdin = std::io::stdin();
+    let stdout = std::io::stdout();
+    let mut out = stdout.lock();
+    for line in stdin.lock().lines() {
+        let line = match line {
+            Ok(l) => l,
+            Err(_) => break,
+        };
+        writeln!(out, "{}", answer(line.trim())).unwrap();
+        out.flush().unwrap();
+    }
+}
+
+struct PlainProc {
+    child: std::process::Child,
+    stdin: std::process::ChildStdin,
+    stdout: std::io::BufReader<std::process::ChildStdout>,
+}
+
+fn plain_binary() -> Option<(std::path::PathBuf, bool)> {
+    if let Ok(p) = std::env::var("HARNESS_PLAIN") {
+        return Some((std::path::PathBuf::from(p), true));
+    }
+    // fallback for manual runs: `check` builds this configuration into `<target>-kurbo`, the default one into `<target>`
+    let exe = std::env::current_exe().ok()?;
+    let tdir = exe.parent()?.parent()?.to_string_lossy().to_string();
+    let base = tdir.strip_suffix("-kurbo")?;
+    let p = std::path::PathBuf::from(format!("{}/release/harness", base));
+    if p.exists() {
+        Some((p, false))
+    } else {
+        None
+    }
+}
+
+static PLAIN: std::sync::OnceLock<std::sync::Mutex<Option<PlainProc>>> = std::sync::OnceLock::new();
+
+/// the default-feature build's answer to `req`, `-` when there is no such binary.  A binary named by
+/// `$HARNESS_PLAIN` that cannot be driven is a tooling error (the process exits non-zero), never a silent `-`.
+fn plain_ask(req: &str) -> String {
+    use std::io::BufRead;
+    let cell = PLAIN.get_or_init(|| {
+        let proc_ = plain_binary().and_then(|(path, required)| {
+            let spawned = std::process::Command::new(&path)
+                .arg("c20w")
+                .stdin(std::process::Stdio::piped())
+                .stdout(std::process::Stdio::piped())
+                .spawn();
+            match spawned {
+                Ok(mut child) => {
+                    let stdin = child.stdin.take().unwrap();
+                    let stdout = std::io::BufReader::new(child.stdout.take().unwrap());
+                    Some(PlainProc { child, stdin, stdout })
+                }
+                Err(e) => {
+                    if required {
+                        eprintln!("C20: cannot run the default-feature harness {}: {}", path.display(), e);
+                        std::process::exit(3);
+                    }
+                    None
+                }
+            }
+        });
+        std::sync::Mutex::new(proc_)
+    });
+    let mut guard = cell.lock().unwrap();
+    match guard.as_mut() {
+        None => "-".to_string(),
+        Some(p) => {
+            let mut line = String::new();
+            let ok = writeln!(p.stdin, "{}", req).is_ok()
+                && p.stdin.flush().is_ok()
+                && p.stdout.read_line(&mut line).map(|n| n > 0).unwrap_or(false);
+            if !ok {
+                eprintln!("C20: the default-feature harness worker stopped answering");
+                let _ = p.child.kill();
+                std::process::exit(3);
+            }
+            line.trim().to_string()
+        }
+    }
+}
+
+pub fn observe_closed(types: &str) -> String {
+    let k = guarded(|| is_closed_of(types)).map(|b| (b as u8).to_string()).unwrap_or_else(|_| "panic".to_string());
+    let t = if types.is_empty() { "-" } else { types };
+    format!("cl k:{} p:{}", k, plain_ask(&format!("C {}", t)))
+}
+
+fn emit_closed(out: &mut dyn Write, types: &str) {
+    let t = if types.is_empty() { "-" } else { types };
+    writeln!(out, "C20 C {} => {}", t, observe_closed(types)).unwrap();
+}
+
 // ---------------------------------------------------------------- transforms
 
+#[cfg(feature = "kurbo")]
 pub fn observe_transform(v: &[f64]) -> String {
     let t = AffineTransform {
         x_scale: v[0],
@@ -223,6 +382,7 @@ pub fn observe_transform(v: &[f64]) -> String {
     let r = guarded(|| {
         let mut p = ContourPoint::new(v[6], v[7], PointType::Line, false, None, None);
         p.transform(t);
+        let plain = plain_ask(&format!("T {}", v.iter().map(|x| f64bits(*x)).collect::<Vec<_>>().join(" ")));
         let ka: kurbo::Affine = t.into();
         let kp = ka * kurbo::Point::new(v[6], v[7]);
         let tk = ka.as_coeffs();
@@ -233,14 +393,15 @@ pub fn observe_transform(v: &[f64]) -> String {
         let kt = kt.as_coeffs();
         let six = |a: &[f64]| a.iter().map(|x| fb(*x)).collect::<Vec<_>>().join(",");
         format!(
-            "tr t:{},{} k:{},{} tk:{} rt:{} kt:{}",
+            "tr t:{},{} k:{},{} tk:{} rt:{} kt:{} p:{}",
             fb(p.x),
             fb(p.y),
             fb(kp.x),
             fb(kp.y),
             six(&tk),
             six(&[rt.x_scale, rt.xy_scale, rt.yx_scale, rt.y_scale, rt.x_offset, rt.y_offset]),
-            six(&kt)
+            six(&kt),
+            plain
         )
     });
     r.unwrap_or_else(|_| "panic".to_string())
@@ -291,7 +452,15 @@ fn random_value(rng: &mut Rng, mode: usize) -> f64 {
 }
 
 pub fn gen(tier: &str, seed: u64, out: &mut dyn Write) {
+    if !cfg!(feature = "kurbo") {
+        eprintln!("C20: the generator needs the harness built with --features kurbo");
+        std::process::exit(2);
+    }
     let mut rng = Rng::new(seed);
+    // 0. `Contour::is_closed` in both builds: every type sequence up to length 4
+    for len in 0..=4 {
+        enumerate(len, &mut |s| emit_closed(out, s));
+    }
     let thorough = tier == "thorough";
     // 1. exhaustive: every type sequence up to the bound, random pairwise distinct coordinates
     let max_len = if thorough { 8 } else { 7 };
